@@ -32,6 +32,7 @@ class P:
 
     def __init__(self):
         self.expect = {}
+        self.seq = {}        # "sflowseq ..." line -> the single-datagram lines it is made of
 
     def budget(self, tier):
         return 1500 if tier == "quick" else 80000
@@ -44,11 +45,40 @@ class P:
                 line = "sflow %s%s" % ("".join("%d " % x for x in f), hx(p))
                 self.expect[line] = (hdr, samples, f)
                 out.append(line)
+        # retention: SEVERAL datagrams are decoded first and encoded only afterwards (what a decoded datagram holds - the ICMP
+        # rest-of-header octets in particular - must not live in storage that a later decode reuses)
+        if len(self.filters) == 1:
+            for i in range(max(10, budget // 30)):
+                singles = []
+                for _ in range(rng.choice([2, 3, 6])):
+                    kinds = [rng.choice(["flow", "flow", "counter"]) for _ in range(rng.choice([1, 2, 3]))]
+                    p, hdr, samples = sfgen.gen_datagram(rng, kinds=kinds)
+                    l1 = "sflow %s" % hx(p)
+                    self.expect[l1] = (hdr, samples, ())
+                    singles.append(l1)
+                line = "sflowseq " + " ".join(x.split(" ", 1)[1] for x in singles)
+                self.seq[line] = singles
+                out.append(line)
         return out
+
+    def post(self, lines, impl, model):
+        import vf
+        need = [s1 for l in lines if l in self.seq for s1 in self.seq[l]]
+        mo = dict(zip(need, vf.run_model(need))) if need else {}
+        return impl, [(" ## ".join(mo[s1] for s1 in self.seq[l]) if l in self.seq else m) for l, m in zip(lines, model)]
 
     def judge(self, line, impl, model):
         if impl in ("PANIC", "HANG", "MARSHAL-ERROR") or impl.startswith("CRASH"):
             return "crashed: " + impl[:80]
+        if line in self.seq:
+            ip, mp = impl.split(" ## "), model.split(" ## ")
+            if len(ip) != len(self.seq[line]):
+                return "decoding %d datagrams and encoding them afterwards gave %d results" % (len(self.seq[line]), len(ip))
+            for k, (s1, i1, m1) in enumerate(zip(self.seq[line], ip, mp)):
+                v = self.judge(s1, i1, m1)
+                if v:
+                    return "datagram %d of %d, decoded first and encoded after the later ones were decoded: %s" % (k + 1, len(ip), v)
+            return None
         e = self.expect.get(line)
         if e is not None:
             hdr, samples, f = e
@@ -73,6 +103,8 @@ class P:
         return None
 
     def classify(self, line, impl, model):
+        if line in self.seq:
+            return ("sequence decoded first, encoded afterwards", line)
         e = self.expect.get(line)
         kinds = sorted(set(k for (_, k, _) in e[1])) if e else []
         return ("%s%s" % ("+".join(kinds), "" if model != "NONE" else " (nothing published)"), line if model != "NONE" else None)
